@@ -13,6 +13,10 @@ pub struct C15Case {
     pub issue: IssueSpec,
     /// sel1 ⊇ sel2 ⊇ … ⊇ selk, each derived from the previous by deselecting nodes
     pub chain: Vec<Value>,
+    /// a second, independent chain run afterwards on the SAME issued credential (same JWT, other
+    /// presentations, possibly with the same number of disclosures)
+    #[serde(default)]
+    pub alt_chain: Vec<Value>,
 }
 
 fn as_map(v: &Value) -> Map<String, Value> {
@@ -42,7 +46,13 @@ pub fn check(case: &C15Case, st: &mut Stats) -> Verdict {
             return Ok(());
         }
     };
-    let sels: Vec<_> = case.chain.iter().map(|s| select(&tree, &as_map(s))).collect();
+    let chains: Vec<&Vec<Value>> = if case.alt_chain.is_empty() { vec![&case.chain] } else { vec![&case.chain, &case.alt_chain] };
+    if chains.len() == 2 {
+        st.label("second_chain_on_the_same_credential");
+    }
+    for (chain_no, chain) in chains.into_iter().enumerate() {
+    let case_chain = chain;
+    let sels: Vec<_> = case_chain.iter().map(|s| select(&tree, &as_map(s))).collect();
     for (i, s) in sels.iter().enumerate() {
         if !s.consistent {
             return Err(Failure::new("harness:bad-case", format!("selection {} not type-consistent: {:?}", i, s.why)));
@@ -53,7 +63,7 @@ pub fn check(case: &C15Case, st: &mut Stats) -> Verdict {
     }
     let last = sels.last().unwrap();
     let removes = sels.windows(2).any(|w| w[1].paths.len() < w[0].paths.len());
-    if case.chain.len() >= 2 && removes {
+    if case_chain.len() >= 2 && removes {
         st.nontrivial();
     }
     // label: an array in which an undisclosed hidden element precedes a disclosed one (in some step)
@@ -77,12 +87,12 @@ pub fn check(case: &C15Case, st: &mut Stats) -> Verdict {
     }
 
     // direct
-    let final_sel = as_map(case.chain.last().unwrap());
+    let final_sel = as_map(case_chain.last().unwrap());
     let direct = must_ok("create_presentation(direct)", sut::present(&issued_text, spec.fmt, &final_sel, None))?;
     // chain
     let mut cur = issued_text.clone();
-    for (i, s) in case.chain.iter().enumerate() {
-        let stage = format!("create_presentation(step {} of chain)", i + 1);
+    for (i, s) in case_chain.iter().enumerate() {
+        let stage = format!("create_presentation(step {} of chain {})", i + 1, chain_no + 1);
         cur = match sut::present(&cur, spec.fmt, &as_map(s), None) {
             Out::Ok(p) => p,
             Out::Err(e) => {
@@ -118,6 +128,7 @@ pub fn check(case: &C15Case, st: &mut Stats) -> Verdict {
                 format!("verified claims of the {} presentation differ\n  expected: {}\n  got:      {}\n  presentation: {}", what, expected, got, sut::clip(pres, 3000)),
             ));
         }
+    }
     }
     Ok(())
 }
